@@ -104,6 +104,17 @@ def hash_rule(R, ctx, roles):
     if not hits:
         return
     fp_fns = {f["path"] for f, c, i in hits}
+    # every function of the scope from which the serialisation is reached (the helper may itself sit behind another helper)
+    sc_fns = interproc.scope(lib, fn)
+    grew = True
+    while grew:
+        grew = False
+        for f in sc_fns:
+            if f["path"] in fp_fns:
+                continue
+            if any((lib.fn(callee_of(c) or "") or {}).get("path") in fp_fns for c in thir.calls(f)):
+                fp_fns.add(f["path"])
+                grew = True
     sc = [(f, c) for f in [lib.fns[p] for p in fp_fns] for c in thir.calls(f)]
     hx = [c for f, c in sc if "xxh" in (c.get("fname") or "") or "hash" in (c.get("fname") or "")]
     R.ob(rid, "fingerprint|hashed", bool(hx), ctx.where(fn), "hash function applied to the serialised configuration")
